@@ -24,6 +24,14 @@ CHECKS = {
         note="Bounded: patch <= 4 bytes, enums <= 9 labels (quick) / all (thorough), two observers; floats compared via "
              "the ratio abstraction justified by C14's monotone lemma.",
         ref="5/C03"),
+    "C05": dict(
+        text="Real STATP/STATQ handlers of the async and the threaded client, the real on-update callbacks and the real "
+             "structure patching, driven through the real first-match dispatch (threaded) / async_handle+async_handled "
+             "(async): symbolic block, symbolic change positions and values, an arbitrary pending-change list left in "
+             "the handler before the first message, refreshes interleaved. The final block must equal the reference "
+             "fold of the updates (array equality by skolem index); exactly one STATQ per STATP, protocol-range sequence.",
+        note="Bounded: <=2 (quick) / <=3 (thorough) messages of 0..3 changes, refresh <=3 bytes, pending list <=2.",
+        ref="5/C05"),
     "C14": dict(
         text="Real GeckoTempStructAccessor and GeckoWaterHeater under IEEE-754 double semantics (z3 FloatingPoint): "
              "decode formula, enc(dec(r)) == r for all 65536 raw words in both units (sync and async path), decimal "
